@@ -873,8 +873,8 @@ class Verifier(Exec):
                 self.strlit_bytes_fact(st, s_)
         k = const('k!', INT)
         ia = select(h, a)
-        self.ctx.assume(forall([k], implies(and_(le(ZERO, k), lt(k, x.len)), eq(select(ia, k), select(select(h, x.arr), add(x.off, k)))), [select(ia, k)]))
-        self.ctx.assume(forall([k], implies(and_(le(x.len, k), lt(k, n)), eq(select(ia, k), select(select(h, y.arr), add(y.off, sub(k, x.len))))), [select(ia, k)]))
+        self.ctx.assume(implies(st.pc, forall([k], implies(and_(le(ZERO, k), lt(k, x.len)), eq(select(ia, k), select(select(h, x.arr), add(x.off, k)))), [select(ia, k)])))
+        self.ctx.assume(implies(st.pc, forall([k], implies(and_(le(x.len, k), lt(k, n)), eq(select(ia, k), select(select(h, y.arr), add(y.off, sub(k, x.len))))), [select(ia, k)])))
         return StrV(a, ZERO, n)
 
     def do_unop(self, st, ins):
@@ -1356,7 +1356,39 @@ class Verifier(Exec):
             regs.append(('obj', self.tname(tid), p, None))
         return regs
 
+    # Standard-library functions that only compute on their arguments.  Without a contract in trusted.spec a
+    # call is modelled as: no panic, no effect on memory the caller can see, an arbitrary valid result; a slice
+    # result is nil or freshly allocated.  (Listed per function in the evidence.)
+    PURE_PKGS = ('strings', 'strconv', 'unicode', 'unicode/utf8', 'errors', 'path/filepath', 'math')
+    PURE_FUNCS = ('fmt.Sprintf', 'fmt.Sprint', 'fmt.Sprintln', 'fmt.Errorf', 'os.Getenv', 'os.LookupEnv')
+    PURE_METHODS = ('(*regexp.Regexp).', '(*strings.Builder).', '(*strings.Replacer).')
+
+    def auto_pure(self, what):
+        if not isinstance(what, str) or ' ' in what:
+            return False
+        if what in self.PURE_FUNCS or what.startswith(self.PURE_METHODS):
+            return True
+        if what.startswith('('):
+            return False
+        pk = what.rsplit('.', 1)[0]
+        return pk in self.PURE_PKGS
+
     def unknown_call(self, st, ins, what):
+        if self.auto_pure(what) and not what.startswith('(*strings.Builder)'):
+            self.trusted.add('%s modelled as a pure library function (no panic, no visible effect, arbitrary valid result)' % what)
+            before = st.alloc
+            na = self.ctx.fresh('alloc', INT)
+            self.ctx.assume(le(before, na))
+            st.alloc = na
+            rt = ins.get('type')
+            if not rt or (self.kind(rt) == 'tuple' and not self.U(rt)['elems']):
+                return None
+            res = self.fresh_value('r:' + short_fn(what), rt, True, None)
+            self.bound_new_addrs(res, rt, st)
+            for x in (res.elems if isinstance(res, TupleV) else [res]):
+                if isinstance(x, SliceV):
+                    self.ctx.assume(or_(eq(x.arr, ZERO), le(before, x.arr)))
+            return res
         raise Unsupported('call of %s has no contract (line %d)' % (what, self.cur_line))
 
     def callee_sig(self, callee):
